@@ -23,17 +23,30 @@ import (
 	"github.com/blevesearch/bleve/v2/search"
 	"github.com/blevesearch/bleve/v2/search/query"
 
+	"github.com/blevesearch/bleve/v2/mapping"
+
 	"verif/bx"
 	"verif/gen"
 	"verif/mc"
 )
 
+// field k: keyword terms WITHOUT term vectors (a term that occurs once in one document of a merged
+// segment is stored as a "1-hit" posting there; text fields with term vectors never are)
 var versions = []map[string]interface{}{
-	{"t": "x y x", "n": 1.0},
-	{"t": "y", "n": 2.0, "d": gen.T0},
-	{"t": []interface{}{"x", "y z"}, "n": []interface{}{1.0, 3.0}},
-	{"t": "z z z x", "d": gen.T0.Add(24 * time.Hour)},
+	{"t": "x y x", "n": 1.0, "k": []interface{}{"a", "s"}},
+	{"t": "y", "n": 2.0, "d": gen.T0, "k": []interface{}{"b", "s"}},
+	{"t": []interface{}{"x", "y z"}, "n": []interface{}{1.0, 3.0}, "k": "a"},
+	{"t": "z z z x", "d": gen.T0.Add(24 * time.Hour), "k": []interface{}{"b", "s"}},
 }
+
+func indexMapping() *mapping.IndexMappingImpl {
+	im := bleve.NewIndexMapping()
+	k := bleve.NewKeywordFieldMapping()
+	k.IncludeTermVectors = false
+	im.DefaultMapping.AddFieldMappingsAt("k", k)
+	return im
+}
+
 var idSpace = []string{"p", "q", "r"}
 
 type op struct {
@@ -89,6 +102,9 @@ func queries() []query.Query {
 		bleve.NewDisjunctionQuery(tq("t", "z"), nr),
 		bq, bq2, nr, dr, pq, fq,
 		bleve.NewDocIDQuery([]string{"p", "r", "zz"}),
+		// appended (the classifier of the known finding names queries by position)
+		bleve.NewConjunctionQuery(tq("k", "a"), tq("k", "s")),
+		bleve.NewDisjunctionQuery(tq("k", "a"), tq("k", "b")),
 	}
 }
 
@@ -308,7 +324,7 @@ func build(l layout, ops []op, parts [][]int, dir string) (bleve.Index, error) {
 		defer g.Free()
 		cfg["eventCallbackName"] = g.Name()
 		g.Arm()
-		idx, err := bleve.NewUsing(p, bleve.NewIndexMapping(), scorch.Name, scorch.Name, cfg)
+		idx, err := bleve.NewUsing(p, indexMapping(), scorch.Name, scorch.Name, cfg)
 		if err != nil {
 			return nil, err
 		}
@@ -329,7 +345,7 @@ func build(l layout, ops []op, parts [][]int, dir string) (bleve.Index, error) {
 		g := bx.AcquireGate()
 		defer g.Free()
 		cfg["eventCallbackName"] = g.Name()
-		idx, err := bleve.NewUsing(p, bleve.NewIndexMapping(), scorch.Name, scorch.Name, cfg)
+		idx, err := bleve.NewUsing(p, indexMapping(), scorch.Name, scorch.Name, cfg)
 		if err != nil {
 			return nil, err
 		}
@@ -350,7 +366,7 @@ func build(l layout, ops []op, parts [][]int, dir string) (bleve.Index, error) {
 		bx.Quiesce(idx, 3*time.Second)
 		return idx, nil
 	}
-	idx, err := bleve.NewUsing(p, bleve.NewIndexMapping(), scorch.Name, scorch.Name, cfg)
+	idx, err := bleve.NewUsing(p, indexMapping(), scorch.Name, scorch.Name, cfg)
 	if err != nil {
 		return nil, err
 	}
@@ -554,7 +570,7 @@ func Run(r *mc.Run) {
 		rec4(nil)
 	}
 	lays := layouts(r.Quick())
-	r.Rule("E1/E2: every history up to the depth bound over 3 ids × (4 document versions + delete) is executed in the baseline layout (in-memory scorch, one segment per operation, never merged) and in every alternative layout: every partition of the history into consecutive batches, forced file merges after every batch, merges suppressed + ForceMerge + reopen, two persister workers with in-memory merges (unsafe batches), older segment formats; the complete SearchResult of 13 queries × 5 sorts (fields *, locations, highlight, terms and numeric-range facets) is compared — ids, Total, MaxScore and scores bit-for-bit, sort keys, stored fields, locations, fragments, facets; order modulo permutation inside groups of equal sort key; an outcome is (number of live documents, result digest class)")
+	r.Rule("E1/E2: every history up to the depth bound over 3 ids × (4 document versions + delete) is executed in the baseline layout (in-memory scorch, one segment per operation, never merged) and in every alternative layout: every partition of the history into consecutive batches, forced file merges after every batch, merges suppressed + ForceMerge + reopen, two persister workers with in-memory merges (unsafe batches), older segment formats; the complete SearchResult of 15 queries × 5 sorts (fields *, locations, highlight, terms and numeric-range facets) is compared — ids, Total, MaxScore and scores bit-for-bit, sort keys, stored fields, locations, fragments, facets; order modulo permutation inside groups of equal sort key; an outcome is (number of live documents, result digest class)")
 	r.Assume("ties (equal complete sort key) are ordered by internal document number, which is layout dependent by design; they are compared as sets")
 	r.Note("histories", len(paths))
 	r.Note("layouts_per_history", "all batch partitions + "+fmt.Sprint(len(lays)))
